@@ -762,6 +762,23 @@ class Exec:
             for o in range(0, n, 4):
                 b[d[2] + o] = (MEMSET_ZERO, 4)
             return
+        if name.startswith('llvm.x86.'):
+            short = name[len('llvm.x86.'):]
+            if short in ('sse.min.ps', 'sse.max.ps', 'sse2.min.pd', 'sse2.max.pd'):
+                f = (lambda x, y: z3.If(x < y, x, y)) if '.min.' in short else (lambda x, y: z3.If(x > y, x, y))
+                env[ins.res] = [f(x, y) for x, y in zip(args[0], args[1])]
+                return
+            if short == 'sse3.hadd.ps':
+                a, b = args[0], args[1]
+                env[ins.res] = [a[0] + a[1], a[2] + a[3], b[0] + b[1], b[2] + b[3]]
+                return
+            if short == 'sse41.dpps':
+                a, b, m_ = args
+                t = [(a[i] * b[i]) if (m_ >> (4 + i)) & 1 else z3.RealVal(0) for i in range(4)]
+                sm = (t[0] + t[1]) + (t[2] + t[3])
+                env[ins.res] = [sm if (m_ >> i) & 1 else z3.RealVal(0) for i in range(4)]
+                return
+            raise NotEligible('x86 intrinsic ' + short + ' has no real-arithmetic meaning here')
         base = re.sub(r'\.(f32|f64|v\d+f(32|64))$', '', name)
         if base in ('llvm.fabs',):
             env[ins.res] = self.lift1(lambda x: z3.If(x >= 0, x, -x), args[0])
